@@ -550,7 +550,12 @@ class Gen:
         if base_names and len(base_names) == len(pnames):
             ren = {b: a for a, b in zip(pnames, base_names) if a and b and a != b}
             if ren and not (set(ren.values()) & set(ren.keys())):
-                cls = [dataclasses.replace(c, text=rs.rename_idents(c.text, ren)) for c in cls]
+                def ren_args(c):
+                    # anchors of hints / rewrites are code text too
+                    if c.kind in ("eta", "insert_before", "split_before"): return [rs.rename_idents(c.args[0], ren)] + c.args[1:]
+                    if c.kind == "replace": return [c.args[0], rs.rename_idents(c.args[1], ren)] + c.args[2:]
+                    return c.args
+                cls = [dataclasses.replace(c, text=rs.rename_idents(c.text, ren), args=ren_args(c)) for c in cls]
                 self.rewrites.append({"fn": fid, "rule": "E20", "renamed_params": ren})
         ret_name = next((c.args[0] for c in cls if c.kind == "ret"), "r")
         labels: List[str] = []
@@ -645,7 +650,33 @@ class Gen:
                         nm = f"__p{k}_{gi}"
                         sp.replace(st[g[0]].start, st[e].end, REP("E6", pat, nm))
                         lets.append(f"let {pat} = {nm};")
+            # E20 for closures: the spec refers to identifier parameters of the k-th closure by position
+            cnames = []
+            if st[cl.bar].text == "|":
+                gs, cg, idx = [], [], cl.bar + 1
+                while idx < cl.params_end:
+                    t = st[idx]
+                    if t.text in rs.OPEN:
+                        e = rs.match_close(st, idx); cg += list(range(idx, e + 1)); idx = e + 1; continue
+                    if t.text == ",": gs.append(cg); cg = []
+                    else: cg.append(idx)
+                    idx += 1
+                if cg: gs.append(cg)
+                for g in gs:
+                    toks = [st[i] for i in g if st[i].text not in ("mut", "&", "ref")]
+                    cnames.append(toks[0].text if toks and toks[0].kind == "ident" and toks[0].text != "_" else None)
+            ckey = f"{self.unit}/{fid}#closure{k}"
+            self.param_names[ckey] = cnames
+            cbase = PARAMS_BASE.get(ckey)
+            cren = {}
+            if cbase and len(cbase) == len(cnames):
+                cren = {b: a for a, b in zip(cnames, cbase) if a and b and a != b}
+                if set(cren.values()) & set(cren.keys()): cren = {}
             ctypes = clos_types.get(k)
+            if cren:
+                if ctypes is not None: ctypes = dataclasses.replace(ctypes, text=rs.rename_idents(ctypes.text, cren))
+                if clos_spec.get(k) is not None: clos_spec[k] = dataclasses.replace(clos_spec[k], text=rs.rename_idents(clos_spec[k].text, cren))
+                self.rewrites.append({"fn": fid, "rule": "E20", "closure": k, "renamed_params": cren})
             if ctypes is not None:
                 # E5b: make the type of identifier parameters explicit: "name: Type" per line
                 want = dict((x.split(":", 1)[0].strip(), x.split(":", 1)[1].strip()) for x in ctypes.text.strip().splitlines() if x.strip())
